@@ -11,6 +11,7 @@ import (
 	"crypto/ecdsa"
 	"hash"
 	"io"
+	"net"
 
 	"github.com/zenon-network/go-zenon/p2p/discover"
 )
@@ -57,3 +58,10 @@ const (
 	BaseProtocolVersionForVerif    = baseProtocolVersion
 	BaseProtocolMaxMsgSizeForVerif = baseProtocolMaxMsgSize
 )
+
+// WrapConnsForVerif makes the server hand every accepted or dialled connection
+// to wrap before the RLPx transport is built on it, so that a monitor can
+// observe the deadlines the node sets on its peer connections. Call before Start.
+func (srv *Server) WrapConnsForVerif(wrap func(net.Conn) net.Conn) {
+	srv.newTransport = func(fd net.Conn) transport { return newRLPX(wrap(fd)) }
+}
